@@ -103,7 +103,11 @@ class World:
 
 class Resp:
     def __init__(self, ctype, body=None, text='', reason='OK', chunks=None, cut_after=None,
-                 payload_exc=None):
+                 payload_exc=None, status=200):
+        # status as bitcoind sends it: 200 for results and for every batch reply, 500 for the
+        # JSON error object of a failed single call (404 for an unknown method), 500 / 403 / 404
+        # for its non-JSON refusals
+        self.status = status
         self.headers = {} if ctype is None else {'Content-Type': ctype}
         self._body, self._text, self.reason = body, text, reason
         self._chunks, self._cut_after, self._payload_exc = chunks, cut_after, payload_exc
@@ -175,14 +179,15 @@ class FakeHTTP:
             raise aiohttp.ClientConnectionError('cannot connect')
         if fault == 6:
             return Resp('text/html', text='Work queue depth exceeded\n',
-                        reason='Internal Server Error')
+                        reason='Internal Server Error', status=500)
         if fault == 7:
-            return Resp(None, text='', reason='Forbidden')
+            return Resp(None, text='', reason='Forbidden', status=403)
         if is_get:
             hex_hash = url.split('/rest/block/')[1][:-4]
             h = self.world.height_of(hex_hash, t)
             if h is None:
-                return Resp('text/plain', text=f'{hex_hash} not found', reason='Not Found')
+                return Resp('text/plain', text=f'{hex_hash} not found', reason='Not Found',
+                            status=404)
             raw = self.world.block_bytes(h)
             chunks = [raw[i:i + self.chunk] for i in range(0, len(raw), self.chunk)]
             if fault in (5, 8, 9):
@@ -203,7 +208,11 @@ class FakeHTTP:
             if fault == 8:
                 body = {'result': None, 'id': req['id'],
                         'error': {'code': -28, 'message': 'Verifying blocks...'}}
-        return Resp('application/json', body=body)
+        status = 200
+        if isinstance(body, dict) and body.get('error'):
+            status = 404 if body['error'].get('code') == -32601 else 500
+        return Resp('application/json', body=body, status=status,
+                    reason='OK' if status == 200 else 'Internal Server Error')
 
     def answer(self, req, t):
         method, params = req['method'], req.get('params', [])
@@ -375,8 +384,13 @@ def run_case(scratch, case):
         outcome['results'] = results
         outcome['daemon'] = daemon
 
+    # the faults are finite: once they are used up the next attempt is answered, so the calls
+    # complete within the back-off sleeps of that many failures (plus fail-over resets) - a
+    # generous bound in virtual time; a call still retrying then is retrying something that is
+    # not a transient fault
+    bound = 120 + (len(case['faults']) + 4) * (max_retry + LATENCY + 1) * 2 * max(1, len(calls))
     try:
-        run_sim(main, vt_deadline=7200, max_iterations=100_000)
+        run_sim(main, vt_deadline=bound, max_iterations=20_000 + 400 * len(case['faults']))
     except (SimDeadlock, SimTimeout, asyncio.TimeoutError) as e:
         return (f'calls did not complete after the faults ended: {type(e).__name__} {e}',
                 'no_completion', info)
@@ -502,7 +516,7 @@ def run_exhaustive(ctx):
         seqs.extend(itertools.product(range(1, N_FAULTS + 1), repeat=n))
     combos = [(u, r, k) for u in (1, 2, 3) for r in range(len(RETRY_SETTINGS))
               for k in range(len(CALL_KINDS))]
-    i = 0
+    i = mine = 0
     done = True
     for combo in combos:
         u, r, k = combo
@@ -510,7 +524,10 @@ def run_exhaustive(ctx):
             i += 1
             if i % ctx.nshards != ctx.shard:
                 continue
-            if i & 0xff == 0 and ctx.over_budget():
+            mine += 1
+            # (a violating case costs its whole time bound: stop after a few, and look at the
+            # clock often)
+            if mine & 0x1f == 0 and ctx.over_budget() or len(ctx.violations) >= 3:
                 done = False
                 break
             case = {'urls': u, 'retry': r, 'calls': [[k, len(seq) + u]], 'faults': list(seq),
